@@ -99,6 +99,9 @@ class DefRuntime:
         if kind == "fn" and self.hist.get("async_members") and m["name"] != "__repr__":
             async def f(self: Any) -> Any:  # type: ignore
                 return None
+        elif kind == "pset":
+            def f(self: Any, value: Any) -> Any:  # type: ignore   # the setter of the property "f"
+                return None
         elif kind in ("fn", "prop"):
             def f(self: Any) -> Any:
                 return None
@@ -143,8 +146,16 @@ class DefRuntime:
         st = self.hist["cls"][k - 1]
         try:
             nsp = {}  # type: Dict[str, Any]
+            setters = {}  # type: Dict[str, Any]
             for m in st["members"]:
+                if m["kind"] == "none":
+                    continue              # an accessor the (re-declared) property does not have
+                if m["kind"] == "pset":
+                    setters[m["name"][:-3]] = self.build_member(m)     # "fset" is the setter of property "f"
+                    continue
                 nsp[m["name"]] = self.build_member(m)
+            for pname, fset in setters.items():
+                nsp[pname] = property(nsp[pname].fget, fset)
             nsp["__module__"] = st.get("mod", "app.models")
             bases = tuple(self.classes[b] for b in st["bases"])
             if st["dbc"]:
@@ -194,6 +205,11 @@ class DefRuntime:
         return out
 
     def member_fn(self, cls: Any, name: str) -> Tuple[str, Any]:
+        if name.endswith("set") and name != "set" and name[:-3] in self.hist["names"]:
+            prop = inspect.getattr_static(cls, name[:-3], None)
+            if isinstance(prop, property) and prop.fset is not None:
+                return "pset", prop.fset
+            return "none", None
         raw = inspect.getattr_static(cls, name, None)
         if raw is None:
             return "none", None
